@@ -65,3 +65,18 @@ Theorem C12_space_tierwise g s d m g' :
   names g' = names g /\ Forall2 (fun t t' => space_tier t s d m = Ok t') (tiers g) (tiers g').
 Proof. exact (tg_space_tierwise g s d m g'). Qed.
 Print Assumptions C12_space_tierwise.
+
+(* Textgrid.mergeTiers: the unselected tiers are carried over unchanged and in their order (or dropped
+   when preserveOtherTiers is off), followed by at most one interval tier and one point tier, each
+   present exactly when a tier of that kind was selected; a name that is not a tier's raises *)
+Theorem C12_merge_tiers_shape g sel keep g' :
+  tg_merge g sel keep = Ok g' ->
+  let names_sel := match sel with Some l => l | None => names g end in
+  exists ts it pt,
+    mapM (fun n => match find_tier n (tiers g) with Some t => Ok t | None => Err PyError end) names_sel = Ok ts
+    /\ tiers g' = (if keep then filter (fun t => negb (name_in (tname t) names_sel)) (tiers g) else [])
+                  ++ match it with Some x => [TI x] | None => [] end ++ match pt with Some x => [TP x] | None => [] end
+    /\ (it = None <-> filter_map (fun t => match t with TI x => Some x | TP _ => None end) ts = [])
+    /\ (pt = None <-> filter_map (fun t => match t with TP x => Some x | TI _ => None end) ts = []).
+Proof. exact (tg_merge_shape g sel keep g'). Qed.
+Print Assumptions C12_merge_tiers_shape.
